@@ -308,7 +308,8 @@ class _StarFinderCatalog:
     def cutout_data(self):
         cutout = []
         for slc in self.slices:
-            cdata = self.data[slc]
+            # copy: the slice is a view of the (caller's) input image
+            cdata = self.data[slc].copy()
             cdata[cdata < 0] = 0.0  # exclude negative pixels
             cutout.append(cdata)
         return cutout
